@@ -142,6 +142,7 @@ class RouteEngine(Engine):
     model_file = "Log/Route.v"
     exe = "route"
     name = "route"
+    per_shard = 10       # children are slow: more driver shards (honoured by flow.d1 where supported)
 
     def n_cases(self, tier):
         return 150 if tier == "quick" else 3000
